@@ -25,7 +25,7 @@ import (
 
 func TestMain(m *testing.M) { drv.Main(m) }
 
-const rule = "state machine on the real application (tx semantics): 3 actors, 5 shared denoms; create balancer pools (2-5 assets, weights 1..2^20-1, spread 0..5%) and stableswap pools (2-5 assets, scaling factors 1..1e6), MsgJoinPool, MsgJoinSwapExternAmountIn, MsgJoinSwapShareAmountOut, MsgExitPool (incl. dust exits of 1..1000 share units), MsgExitSwapShareAmountIn, MsgExitSwapExternAmountOut, 1-3 hop MsgSwapExactAmountIn/Out and split routes through poolmanager, direct bank sends to a pool address, default/per-pair taker fee changes; oracle after every step: bank balance of each pool account == reserves the pool reports + directly sent, bank supply of each gamm/pool/N == total shares the pool reports, supply of every non-share denom unchanged, and around every message the balance deltas of all tracked accounts (actors, pools, every module account) sum to zero per denom; single-hop swaps: taker-fee collector receives exactly in - floor(in(1-f)) (exact in) or ceil(x/(1-f)) - x (exact out); failed messages leave the digest unchanged; non-trivial = >= 2 pools touched, a multi-hop swap, a single-asset join or exit and a failed message; distinct by history hash"
+const rule = "state machine on the real application (tx semantics): 3 funded actors and one poor actor (1000 units of each denom: its messages mostly name amounts it does not own and must fail as a whole), 5 shared denoms; create balancer pools (2-5 assets, weights 1..2^20-1, spread 0..5%) and stableswap pools (2-5 assets, scaling factors 1..1e6), MsgJoinPool, MsgJoinSwapExternAmountIn, MsgJoinSwapShareAmountOut, MsgExitPool (incl. dust exits of 1..1000 share units), MsgExitSwapShareAmountIn, MsgExitSwapExternAmountOut, 1-3 hop MsgSwapExactAmountIn/Out and split routes through poolmanager, direct bank sends to a pool address, default/per-pair taker fee changes; oracle after every step: bank balance of each pool account == reserves the pool reports + directly sent, bank supply of each gamm/pool/N == total shares the pool reports, supply of every non-share denom unchanged, and around every message the balance deltas of all tracked accounts (actors, pools, every module account) sum to zero per denom; single-hop swaps: taker-fee collector receives exactly in - floor(in(1-f)) (exact in) or ceil(x/(1-f)) - x (exact out); failed messages leave the digest unchanged; non-trivial = >= 2 pools touched, a multi-hop swap, a single-asset join or exit and a failed message; distinct by history hash"
 
 var denoms = []string{"aaa", "bbb", "ccc", "ddd", "uosmo"}
 
@@ -130,6 +130,16 @@ func TestPropGamm(t *testing.T) {
 			}
 			c.Fund(chain.Actor(a), cs)
 			w.tracked = append(w.tracked, chain.Actor(a))
+		}
+		// a poor actor: can pay fees but almost never the amounts it names - a message whose funds are missing must fail as a
+		// whole (or, when it happens to be affordable, satisfy the same accounting)
+		{
+			var cs sdk.Coins
+			for _, d := range denoms {
+				cs = cs.Add(coin(d, big.NewInt(1000)))
+			}
+			c.Fund(chain.Actor(3), cs)
+			w.tracked = append(w.tracked, chain.Actor(3))
 		}
 		maccs := app.ModuleAccountAddrs()
 		names := make([]string, 0, len(maccs))
@@ -329,7 +339,7 @@ func TestPropGamm(t *testing.T) {
 			},
 			"joinPool": func(rt *rapid.T) {
 				id := pickPool(rt)
-				a := rapid.IntRange(0, 2).Draw(rt, "actor")
+				a := rapid.IntRange(0, 3).Draw(rt, "actor")
 				sh := genAmt(rt, "shares", w.pool(id).GetTotalShares().BigInt())
 				var maxs sdk.Coins
 				for _, d := range poolDenoms(id) {
@@ -344,7 +354,7 @@ func TestPropGamm(t *testing.T) {
 			},
 			"joinSwapExtern": func(rt *rapid.T) {
 				id := pickPool(rt)
-				a := rapid.IntRange(0, 2).Draw(rt, "actor")
+				a := rapid.IntRange(0, 3).Draw(rt, "actor")
 				ds := poolDenoms(id)
 				d := ds[rapid.IntRange(0, len(ds)-1).Draw(rt, "denom")]
 				amt := genAmt(rt, "amt", w.pool(id).GetTotalPoolLiquidity(c.Ctx).AmountOf(d).BigInt())
@@ -358,7 +368,7 @@ func TestPropGamm(t *testing.T) {
 			},
 			"joinSwapShare": func(rt *rapid.T) {
 				id := pickPool(rt)
-				a := rapid.IntRange(0, 2).Draw(rt, "actor")
+				a := rapid.IntRange(0, 3).Draw(rt, "actor")
 				ds := poolDenoms(id)
 				d := ds[rapid.IntRange(0, len(ds)-1).Draw(rt, "denom")]
 				sh := genAmt(rt, "shares", w.pool(id).GetTotalShares().BigInt())
@@ -372,7 +382,7 @@ func TestPropGamm(t *testing.T) {
 			},
 			"exitPool": func(rt *rapid.T) {
 				id := pickPool(rt)
-				a := rapid.IntRange(0, 2).Draw(rt, "actor")
+				a := rapid.IntRange(0, 3).Draw(rt, "actor")
 				have := c.Bal(chain.Actor(a), gammtypes.GetPoolShareDenom(id)).Amount.BigInt()
 				if have.Sign() == 0 {
 					rt.Skip("no shares")
@@ -390,7 +400,7 @@ func TestPropGamm(t *testing.T) {
 			},
 			"exitSwapShare": func(rt *rapid.T) {
 				id := pickPool(rt)
-				a := rapid.IntRange(0, 2).Draw(rt, "actor")
+				a := rapid.IntRange(0, 3).Draw(rt, "actor")
 				have := c.Bal(chain.Actor(a), gammtypes.GetPoolShareDenom(id)).Amount.BigInt()
 				if have.Sign() == 0 {
 					rt.Skip("no shares")
@@ -411,7 +421,7 @@ func TestPropGamm(t *testing.T) {
 			},
 			"exitSwapExtern": func(rt *rapid.T) {
 				id := pickPool(rt)
-				a := rapid.IntRange(0, 2).Draw(rt, "actor")
+				a := rapid.IntRange(0, 3).Draw(rt, "actor")
 				have := c.Bal(chain.Actor(a), gammtypes.GetPoolShareDenom(id)).Amount
 				if have.IsZero() {
 					rt.Skip("no shares")
@@ -431,7 +441,7 @@ func TestPropGamm(t *testing.T) {
 				if len(w.pools) == 0 {
 					rt.Skip("no pools")
 				}
-				a := rapid.IntRange(0, 2).Draw(rt, "actor")
+				a := rapid.IntRange(0, 3).Draw(rt, "actor")
 				in := denoms[rapid.IntRange(0, len(denoms)-1).Draw(rt, "in")]
 				ids, outs := route(rt, in, rapid.IntRange(1, 3).Draw(rt, "hops"))
 				if len(ids) == 0 {
@@ -475,7 +485,7 @@ func TestPropGamm(t *testing.T) {
 				if len(w.pools) == 0 {
 					rt.Skip("no pools")
 				}
-				a := rapid.IntRange(0, 2).Draw(rt, "actor")
+				a := rapid.IntRange(0, 3).Draw(rt, "actor")
 				// build the route backwards from the out denom (reuse the walk, then reverse)
 				out := denoms[rapid.IntRange(0, len(denoms)-1).Draw(rt, "out")]
 				ids, ins := route(rt, out, rapid.IntRange(1, 3).Draw(rt, "hops"))
@@ -511,7 +521,7 @@ func TestPropGamm(t *testing.T) {
 				if len(w.pools) == 0 {
 					rt.Skip("no pools")
 				}
-				a := rapid.IntRange(0, 2).Draw(rt, "actor")
+				a := rapid.IntRange(0, 3).Draw(rt, "actor")
 				in := denoms[rapid.IntRange(0, len(denoms)-1).Draw(rt, "in")]
 				ids, outs := route(rt, in, 1)
 				if len(ids) == 0 {
@@ -542,7 +552,7 @@ func TestPropGamm(t *testing.T) {
 			},
 			"directSend": func(rt *rapid.T) {
 				id := pickPool(rt)
-				a := rapid.IntRange(0, 2).Draw(rt, "actor")
+				a := rapid.IntRange(0, 3).Draw(rt, "actor")
 				d := denoms[rapid.IntRange(0, len(denoms)-1).Draw(rt, "denom")]
 				amt := big.NewInt(rapid.Int64Range(1, 1_000_000).Draw(rt, "amt"))
 				msg := &banktypes.MsgSend{FromAddress: chain.Actor(a).String(), ToAddress: w.pool(id).GetAddress().String(), Amount: sdk.NewCoins(coin(d, amt))}
